@@ -63,15 +63,27 @@ def named(rep, cfg, loc):
 
 
 def ladder(rep, cfg):
-    """cfg M: scalar_mul_both::<CT> is LSB-first double-and-add over the whole slice"""
-    p = cfg.one(rep, "scalar_mul_both", lambda x: x == "min_curve::element::Element::scalar_mul_both")
-    if not p:
-        return
+    """cfg M: the scalar-multiplication ladder(s) are LSB-first double-and-add over the whole slice.  With the shared const-generic helper
+    scalar_mul_both::<CT> that helper is judged for both variants and the two public routines must call it; without it, each public routine is
+    judged on its own."""
+    helper = "min_curve::element::Element::scalar_mul_both"
+    if helper in cfg.prog.bodies:
+        return ladder_template(rep, cfg, helper, "LADDER/M/scalar_mul_both", both_variants=True, check_callers=True)
+    n = 0
+    for nm in ("scalar_mul", "scalar_mul_vartime"):
+        pp = cfg.one(rep, nm, lambda x: x == "min_curve::element::Element::" + nm)
+        if pp:
+            ladder_template(rep, cfg, pp, "LADDER/M/" + nm, both_variants=False, check_callers=False)
+            n += 1
+    return n
+
+
+def ladder_template(rep, cfg, p, key, both_variants, check_callers):
     loc = G.base_summaries_M(cfg, rep)
-    loc.pop(p, None)
+    for k_ in ("min_curve::element::Element::scalar_mul_both", "min_curve::element::Element::scalar_mul", "min_curve::element::Element::scalar_mul_vartime"):
+        loc.pop(k_, None)
     out = cfg.run(p, local=loc)
     v = out.value
-    key = "LADDER/M/scalar_mul_both"
     S, bits = mk("param", "self"), mk("param", "le_bits")
     probs = []
     ok = False
@@ -132,13 +144,15 @@ def ladder(rep, cfg):
                         if not is_bit_test(cond_flag, flag):
                             fine = False
                             probs.append("%s variant: the selected bit must be (limb >> i) & 1; got %s" % (variant_name, Tm.show(cond_flag, maxdepth=6)))
-                    if len(cands) < 2:
+                    if both_variants and len(cands) < 2:
                         probs.append("could not separate the constant-time and variable-time variants (const generic CT)")
     for u in out.unmodelled:
         probs.append("construct outside the ladder template: " + u)
-    rep.ob(key, not probs, "scalar_mul_both must be the LSB-first double-and-add ladder over all limbs x 64 bits for both CT and vartime: " +
+    rep.ob(key, not probs, "the ladder must be the LSB-first double-and-add over all limbs x 64 bits%s: " % (" for both CT and vartime" if both_variants else "") +
            ("template matched" if not probs else "; ".join(probs[:4])), where=cfg.where(p),
            sample={"obligation": key, "loop": Tm.show(v, maxdepth=3)})
+    if not check_callers:
+        return
     # callers pass canonical limbs of the scalar
     for nm in ("scalar_mul", "scalar_mul_vartime"):
         pp = cfg.one(rep, nm, lambda x: x == "min_curve::element::Element::" + nm)
@@ -188,21 +202,25 @@ def acc_variants(t):
 
 
 def is_bit_test(c, flag):
-    """c is `bit == 1` / `choice_true(bit as u8)` for bit = (limb >> i) & 1"""
+    """c says "the bit is set" for bit = (limb >> i) & 1, in any spelling: bit == 1, bit != 0, !(bit == 0), Choice::from(bit as u8), ..."""
     x = c
+    neg = False
+    while x.op in ("not", "choice_not"):
+        neg, x = not neg, x.args[0]
     if x.op == "choice_true":
         x = x.args[0]
-        if x.op == "cast":
+        while x.op == "cast":
             x = x.args[1]
-        return x is flag
-    if x.op == "eq":
+        return (x is flag) and not neg
+    if x.op in ("eq", "ne"):
         a, b = x.args
         for u, v in ((a, b), (b, a)):
-            if v is lit(1):
-                if u.op == "cast":
+            if Tm.is_lit(v) and v.args[0] in (0, 1) and v.args[0] is not True and v.args[0] is not False:
+                while u.op == "cast":
                     u = u.args[1]
                 if u is flag:
-                    return True
+                    is_set = (v.args[0] == 1) == (x.op == "eq")      # bit == 1 / bit != 0  -> set;   bit == 0 / bit != 1 -> clear
+                    return is_set != neg
     return False
 
 
